@@ -165,7 +165,9 @@ def run_p(case):
     des = []
     for f in flows:
         idx = [i for i, p in enumerate(pkts) if p.conn == f.id and p.payload]
-        des += [idx[0], idx[-1]] if f.id in (0, 1) else [idx[1], idx[len(idx) // 2]]
+        # odd positions get a changed checksum field (payload intact), even positions a flipped payload byte: the first payload
+        # packet of a connection must be of the first kind (a damaged ClientHello would not decrypt anyway)
+        des += [idx[-1], idx[0]] if f.id in (0, 1) else [idx[1], idx[len(idx) // 2]]
     fails, nontriv, outcomes = [], [], set()
     n = 0
     sample = None
